@@ -241,6 +241,10 @@ def _run_config(c):
             return
         sM, sw, sO, sH = scales(spins, e)
         kin = 2.0 / (n * a) / beta                                      # |da/dt| <= kin * sum m_pert |dU/dM terms|
+        # full-amplitude torque scale (3/2) G M_pert^2 R^5 / a^6: at the exact rest state (e = 0, spin = n, obliquity 0.0 through the
+        # general inclination tables) all terms are ~1e-33 of it (rounding residues of table entries that vanish at I = 0) and
+        # no balance can be asserted on them; the scale is never taken below 1e-20 of the full amplitude.
+        T0 = sum(1.5 * G * B[1 - i]['m'] ** 2 * B[i]['R'] ** 5 / a ** 6 for i, s_ in enumerate(spins) if s_ is not None)
         # energy
         tE = G * m1 * m2 / (2.0 * a * a) * dadt
         terms = [tE]
@@ -251,7 +255,7 @@ def _run_config(c):
             terms += [B[i]['C'] * s_ * dsdt[i], heat[i]]
             floor += abs(s_) * sO[i] + sH[i]
         res = abs(sum(terms))
-        sc = max(sum(abs(t) for t in terms), floor)
+        sc = max(sum(abs(t) for t in terms), floor, 1e-20 * T0 * abs(n))
         stats['balances'] += 1
         if res > TOL * sc:
             V.add(f'C11/{entry}/energy-balance', dict(where, form=form, d_orbital_energy=tE, terms=terms, residual=sum(terms), scale=sc))
@@ -267,7 +271,7 @@ def _run_config(c):
             if e > 0.0:
                 floor += L * e / (1.0 - e * e) * (math.sqrt(1 - e * e) / (n * a * a * e) / beta) * (sM + sw)
             res = abs(sum(terms))
-            sc = max(sum(abs(t) for t in terms), floor)
+            sc = max(sum(abs(t) for t in terms), floor, 1e-20 * T0)
             if res > TOL * sc:
                 V.add(f'C11/{entry}/angular-momentum-balance', dict(where, form=form, terms=terms, residual=sum(terms), scale=sc))
             if sc > 0:
